@@ -42,7 +42,16 @@ def gen_set(r, nz, wide=0.0):
         S['norm'] = ['inf', float(r.choice([1.0, 2.0])), mid.tolist(), float(r.choice([2.0, 1.0]))]
     elif u < 0.7:
         S['quad'] = [mid.tolist(), float(r.choice([1.0, 4.0, 2.25]))]       # sumsqr(z - mid) <= rho
-    if (S['norm'] and S['norm'][0] == 2) or S['quad']:
+    # a piece lifted through an exponential cone: exp(z_j - c) <= rho  (<=> z_j <= c + ln rho) or log(z_j - c + 2) >= t
+    # (<=> z_j >= c - 2 + e^t); the oracle uses the equivalent bound
+    S['xc'] = None
+    if r.random() < 0.12:
+        j = int(r.integers(0, nz))
+        if r.random() < 0.5:
+            S['xc'] = ['exp', j, float(mid[j]), float(r.choice([1.5, 2.0, 4.0]))]
+        else:
+            S['xc'] = ['log', j, float(mid[j]), float(r.choice([0.25, 0.5]))]
+    if (S['norm'] and S['norm'][0] == 2) or S['quad'] or S['xc']:
         # sets with a genuine cone constraint must be strictly feasible (the properties assume Slater's condition):
         # no equality rows and no pinned components, so that `mid` is an interior point
         S['eq'] = []
@@ -54,7 +63,15 @@ def gen_set(r, nz, wide=0.0):
         if S['quad']:
             S['quad'][0] = ((np.array(S['lo']) + np.array(S['hi'])) / 2).tolist()
         S['ineq'] = [[a, float(np.array(a) @ ((np.array(S['lo']) + np.array(S['hi'])) / 2) + 1)] for a, b in S['ineq']]
+        if S['xc']:
+            S['xc'][2] = float((S['lo'][S['xc'][1]] + S['hi'][S['xc'][1]]) / 2)
     return S
+
+
+def xc_bound(S):
+    """(j, 'ub'/'lb', value) of the exponential-cone piece"""
+    kind, j, c, par = S['xc']
+    return (j, 'ub', c + float(np.log(par))) if kind == 'exp' else (j, 'lb', c - 2.0 + float(np.exp(par)))
 
 
 def rs_set(z, S, r=None):
@@ -73,6 +90,9 @@ def rs_set(z, S, r=None):
     if S.get('quad'):
         c, rho = S['quad']
         cs.append(rso.sumsqr(z - np.array(c)) <= rho)
+    if S.get('xc'):
+        kind, j, c, par = S['xc']
+        cs.append(rso.exp(z[j] - c) <= par if kind == 'exp' else rso.log(z[j] - c + 2) >= par)
     return cs
 
 
@@ -86,6 +106,10 @@ def maxlin(g, S):
         G.append(e); h.append(S['hi'][j]); G.append(-e); h.append(-S['lo'][j])
     for a, b in S['ineq']:
         G.append(np.array(a, dtype=float)); h.append(b)
+    if S.get('xc'):
+        j, side, v = xc_bound(S)
+        e = np.zeros(nz); e[j] = 1.0 if side == 'ub' else -1.0
+        G.append(e); h.append(v if side == 'ub' else -v)
     Gq = []; hq = []; qd = []
     extra = 0
     if S['norm']:
